@@ -243,9 +243,22 @@ class C07(Check):
                           witness="the generated model returns derivatives with a flipped sign / without a coefficient")
         defs = single_defs(gen)
         fill = [l for l in body if isinstance(l, ast.For) and norm(expand_locals(l.iter, defs)) == "model.get_raw_reactions().items()" and "diff_eqs" in norm(l)]
-        okf = fill and "for var_name, factor in rxn.stoichiometry.items():" in norm(fill[0]).replace("\n", " ") and ("diff_eqs.setdefault(var_name, {})[rxn_name] = factor" in norm(fill[0])
-                 or ("diff_eqs[var_name][rxn_name] = factor" in norm(fill[0]) and norm(defs.get("diff_eqs")) == "defaultdict(dict)")) \
-            and not any(isinstance(x, (ast.If, ast.Continue, ast.Break)) for x in ast.walk(fill[0]))
+        okf = False
+        if fill and isinstance(fill[0].target, ast.Tuple) and len(fill[0].target.elts) == 2:
+            inner8 = [l for l in fill[0].body if isinstance(l, ast.For)]
+            rxn_n, rxn_o = norm(fill[0].target.elts[0]), norm(fill[0].target.elts[1])
+            if len(inner8) == 1 and len(fill[0].body) == 1 and norm(inner8[0].iter) == f"{rxn_o}.stoichiometry.items()" and isinstance(inner8[0].target, ast.Tuple):
+                si8 = SymInterp()
+                st8 = si8.assign(inner8[0].target, si8.item(inner8[0].iter, 0, Sym()), Sym())
+                o_ = si8.block(inner8[0].body, [st8])
+                ends8 = list(o_.normal) + list(o_.continues)
+                K8, V8 = f"KEY(0, {rxn_o}.stoichiometry)", f"VALUE(0, {rxn_o}.stoichiometry)"
+                good8 = (f"diff_eqs[{K8}][{rxn_n}]", f"diff_eqs.setdefault({K8}, {{}})[{rxn_n}]")
+                okf = bool(ends8) and not o_.breaks and all(
+                    [t_ for t_, v_ in st.stores() if t_.endswith(f"[{rxn_n}]")] in ([good8[0]], [good8[1]]) and all(v_ == V8 for t_, v_ in st.stores() if t_.endswith(f"[{rxn_n}]"))
+                    and (good8[1] in [t_ for t_, _ in st.stores()] or norm(defs.get("diff_eqs")) == "defaultdict(dict)"
+                         or any(t_ == f"diff_eqs[{K8}]" and v_ == "{}" for t_, v_ in st.stores()) or (f"{K8} in diff_eqs", True) in st.conds)
+                    for st in ends8)
         if okf:
             self.holds("G8", MOD, GEN, "every-stoichiometry-entry", fill[0], "diff_eqs[variable][reaction] = coefficient for every entry of every reaction")
         else:
